@@ -147,4 +147,7 @@ CONTRACTS = [
 for _c in CONTRACTS:
     if _c.name.startswith("delay_subscription"):
         _c.late_subscribe = True
-
+    # native runner of their own (timedrun.py: the mapper returns timer(d + 10 for None elements)): replay, thorough cross-check,
+    # bounded stand-in on drift
+    if _c.name in ("throttle_with_mapper", "timeout_with_mapper"):
+        _c.runner = ("timedrun.py", _c.name)
